@@ -18,9 +18,9 @@ INFO = dict(
 def plan(tier, ctx):
     src = ['fiber_mutex.c'] + fvm.KERNEL_SRCS
     j = []
-    j += fvm.config('C03', 'mutex_2', 'mutex.c', 2, 4, 'sc', srcs=src, defines=['NF=2'], spec=fvm.kspec(2), bounds='2 fibers lock/unlock')
-    j += fvm.config('C03', 'mutex_2', 'mutex.c', 2, 4, 'tso', srcs=src, defines=['NF=2'], spec=fvm.kspec(2), bounds='2 fibers, TSO', timeout=900)
-    j += fvm.config('C03', 'mutex_lock_try', 'mutex.c', 2, 4, 'sc', srcs=src, defines=['NF=2', 'T2_TRY'], spec=fvm.kspec(2), bounds='1 locker + 1 trylock', timeout=900)
+    j += fvm.config('C03', 'mutex_2', 'mutex.c', 2, 4, 'sc', srcs=src, defines=['NF=2'], spec=fvm.kspec(2), bounds='2 fibers lock/unlock', timeout=1800)
+    j += fvm.config('C03', 'mutex_2', 'mutex.c', 2, 4, 'tso', srcs=src, defines=['NF=2'], spec=fvm.kspec(2), bounds='2 fibers, TSO', timeout=2400)
+    j += fvm.config('C03', 'mutex_lock_try', 'mutex.c', 2, 4, 'sc', srcs=src, defines=['NF=2', 'T2_TRY'], spec=fvm.kspec(2), bounds='1 locker + 1 trylock', timeout=1800)
     if tier == 'thorough':
         j += fvm.config('C03', 'mutex_3try', 'mutex.c', 3, 4, 'sc', srcs=src, defines=['NF=3', 'T3_TRY'], spec=fvm.kspec(3), bounds='2 lockers + 1 trylock', timeout=3000, required=False)
         j += fvm.config('C03', 'mutex_3', 'mutex.c', 3, 4, 'sc', srcs=src, defines=['NF=3'], spec=fvm.kspec(3), bounds='3 fibers', timeout=1800, required=False)
